@@ -811,6 +811,7 @@ func schedCheck(prop, tier string) int {
 		materialiseEntries(shared, c04Entries())
 	} else {
 		materialiseEntries(shared, c18Entries())
+		materialiseEntries(shared, []hentry{{Kind: "bigfile", Path: "big"}})
 	}
 	if os.Geteuid() == 0 && os.Getenv("VERIF_NO_DROP") != "" {
 		ev.Fatal("C18 needs an unprivileged worker user for its unreadable entry; do not set VERIF_NO_DROP")
